@@ -104,6 +104,30 @@ Theorem C05_lower_bounds_cut_off_nothing :
 Proof. exact lower_bounds_cut_off_nothing. Qed.
 Print Assumptions C05_lower_bounds_cut_off_nothing.
 
+(* END TO END for use_min_gen_set_lowerbound (no partition constraints): the size MinGenSet REPORTS -- its k-search over
+   the rows of encode_mgs under the solver specification (C15) -- for the flow values and the source flow is at most the
+   number of paths of ANY decomposition with at least lb paths; composed from the theorem above, the completeness of the
+   MinGenSet rows and MinGenSet's minimality (MgsComplete.v, agent-misc) *)
+From FP Require Import MgsComplete LowerBoundsMgs.
+Theorem C05_min_gen_set_option_is_sound :
+  forall (J : kfd_inst) (P : N -> list node) (w : N -> Q)
+         (I : mgs_inst) (status : nat -> mstatus) (lb n : nat) (extra : Z) (tried : list nat) (m : nat),
+  let G := p_graph (f_base J) in let E := g_edges G in let s := g_src G in let t := g_snk G in
+  decomposition J P w -> wf_graph G ->
+  (forall u x, In (s, u) E -> In (x, u) E -> x = s) ->
+  (forall e, In e E -> mem_edge e (f_ignore J) = true -> fst e = s \/ snd e = t) ->
+  (forall u, In (s, u) E -> mem_edge (s, u) (f_ignore J) = true) ->
+  mg_parts I = None -> mg_mult I = 1%nat -> mg_int I = f_int J ->
+  (forall a, In a (mg_numbers I) -> exists e, In e E /\ mem_edge e (f_ignore J) = false /\ (a == LowerBounds.flow_of J e)%Q) ->
+  (mg_total I == sumq (LowerBounds.flow_of J) (src_cut G (f_ignore J)))%Q ->
+  (forall k, status k = MgOptimal -> exists a, sat a (encode_mgs I k)) ->
+  (forall k, status k = MgInfeasible -> forall a, ~ sat a (encode_mgs I k)) ->
+  mgsm_loop status lb n extra = (tried, Some m) ->
+  (lb <= p_k (f_base J))%nat ->
+  (m <= p_k (f_base J))%nat.
+Proof. exact min_gen_set_option_is_sound. Qed.
+Print Assumptions C05_min_gen_set_option_is_sound.
+
 (* non-vacuity: s -> a, a -> b (2), a -> c (3), b -> t, c -> t with two paths of weights 2 and 3 meets every premise; the source
    cut is {(a,b),(a,c)}, the source flow 5 and the theorem yields a generating multiset of at most 2 elements for {2,3} *)
 Example C05_lower_bounds_nonvacuous :
